@@ -12,6 +12,7 @@ Property theorems only; helper lemmas live in `GluonModel/Lemmas/{UidValidity,Ui
 -/
 import GluonModel.Lemmas.UidValidity
 import GluonModel.Lemmas.UidSeq
+import GluonModel.Generated.Facts.Migrations
 
 namespace Gluon.C04
 
@@ -167,6 +168,63 @@ example : (runTxs [⟨[.insert, .insert, .insert], true⟩, ⟨[.deleteMax], tru
 example : (runTxs [⟨[.insert], true⟩, ⟨[.insert, .insert], false⟩, ⟨[.insert], true⟩] empty).2 = [1, 2] := by
   decide
 example : WF empty := by simp [WF, empty]
+
+/-! ### Schema migrations (the restart that is an upgrade) -/
+
+/-- **A table rebuilt by copying its rows forgets the UIDs that were expunged from its top** —
+    witness: UIDs 1, 2, 3 were assigned and 3 expunged (UIDNEXT 4); after
+    create-tmp / copy rows with their UIDs / drop / rename UIDNEXT is 3 and the next message gets
+    UID 3 again, under the same UIDVALIDITY.  (This is why `uid_fresh` and `uidnext_mono` say
+    nothing about a restart whose schema migration rebuilds the per-mailbox message tables, and why
+    such a migration must be found by the obligations below and by the upgrade fixtures.) -/
+theorem rebuild_copy_reuses_witness :
+    WF { rows := [1, 2], seq := 3 } ∧
+      uidNext (rebuildCopy { rows := [1, 2], seq := 3 }) < uidNext { rows := [1, 2], seq := 3 } ∧
+      (applyOp (rebuildCopy { rows := [1, 2], seq := 3 }) .insert).2 = some 3 := by
+  refine ⟨?_, by decide, by decide⟩
+  intro u hu
+  simp only [List.mem_cons, List.not_mem_nil, or_false] at hu
+  show u ≤ 3
+  omega
+
+/-- **… and it is harmless exactly when the highest UID ever assigned is still present** — for every
+    well-formed table a rebuild by copy never raises UIDNEXT, and keeps it iff the largest row
+    equals `seq`. -/
+theorem rebuild_copy_uidnext (m : Mbox) (h : WF m) :
+    uidNext (rebuildCopy m) ≤ uidNext m ∧ (uidNext (rebuildCopy m) = uidNext m ↔ maxRow m.rows = m.seq) := by
+  have := maxRow_le m.rows m.seq h
+  simp only [uidNext, rebuildCopy]
+  omega
+
+/-- **A rebuild that restores the high-water mark changes nothing** — the repaired idiom is the
+    identity on every well-formed table, so all theorems above carry over such a migration. -/
+theorem rebuild_keep_seq_id (m : Mbox) (h : WF m) : rebuildKeepSeq m = m := by
+  have := maxRow_le m.rows m.seq h
+  cases m
+  simp only [rebuildKeepSeq, Mbox.mk.injEq, true_and]
+  simp only at this
+  omega
+
+/-- **The schema migrations are the reviewed ones** (regenerated from
+    internal/db_impl/sqlite3/migrations.go on every run) — the UID theorems speak about tables that
+    only see INSERT-without-UID and DELETE; a migration is code outside that model.  v0–v3 were read:
+    only v1 touches the per-mailbox message tables (it creates them, under new UIDVALIDITY values).
+    A new migration makes this obligation fail: the check then runs its search at thorough size
+    (upgrade fixtures included) and reports the obligation until the migration has been reviewed. -/
+theorem migrations_reviewed : Facts.migrationList.map (·.name) = ["v0", "v1", "v2", "v3"] := by decide
+
+/-- **No migration rebuilds the per-mailbox message tables under the old UIDVALIDITY** — every
+    migration whose source mentions those tables and drops/renames tables (or writes
+    `sqlite_sequence`) also issues new UIDVALIDITY values (`Generate()`), which is what RFC 3501
+    asks for when UIDs cannot be kept. -/
+theorem migrations_keep_uid_tables :
+    ∀ f ∈ Facts.migrationList, f.touchesUidTables = true → f.rebuildsTables = true → f.regeneratesUidValidity = true := by
+  decide
+
+-- non-vacuity: a table whose top is present survives the rebuild; the repaired idiom always does
+example : rebuildCopy { rows := [1, 3], seq := 3 } = { rows := [1, 3], seq := 3 } := by decide
+example : rebuildKeepSeq { rows := [1, 2], seq := 3 } = { rows := [1, 2], seq := 3 } := by decide
+example : ∃ f ∈ Facts.migrationList, f.touchesUidTables = true ∧ f.rebuildsTables = true := by decide
 
 end UidSeq
 
